@@ -370,7 +370,7 @@ impl Sim {
             Some("C15")
         } else if opname.starts_with("step(MsgReadIndex") || opname.starts_with("read_index") {
             Some("C08")
-        } else if opname.starts_with("step(MsgTransferLeader") || opname.starts_with("step(MsgTimeoutNow") || opname.starts_with("transfer") {
+        } else if opname.starts_with("step(MsgTransferLeader") || opname.starts_with("transfer") {
             Some("C17")
         } else if opname.starts_with("propose_conf") || opname.starts_with("apply_conf_change") {
             Some("C09")
